@@ -124,3 +124,21 @@ _add(
          "asserted after each of thousands of consecutive applications.",
     technique="runtime monitoring: list-of-parts reference model + spy reduction + long-run range invariant on the real Updater / Accumulator and bounding kernels",
 )
+
+_add(
+    "C07",
+    rule="10 reducer classes x dt {1,0.5,1.3} x duration {0, dt, 2.5dt, 3dt, 6dt} x inclusive x inplace x time "
+         "constants / amplitudes (negative too) / scales / targets and tolerances / alphas / event-initial values x "
+         "boolean and real observation sequences of 12-40 steps with interleaved clear(keepshape T/F), dt "
+         "reassignment (duration 0), scalar and per-element view times on and off the grid and dump(); plus the nine "
+         "functional trace forms on 5-30 step histories. One evaluation = one step / view / dump / clear judged "
+         "against the closed form over the recorded event list. distinct = (reducer, operation, first/later, record "
+         "size class, inplace, observation kind, dt, events/quiet, view mode and grid position) abstractions.",
+    required=["steps_checked", "views_checked", "dumps_checked", "clears", "functional_steps_checked", "dt_reassignments"],
+    floor={"quick": 250, "thorough": 600},
+    text="Held on every history explored: after each observation the value reported by the real reducer (run in "
+         "float64) is compared with the closed-form sum over the recorded event list, views are compared with the value "
+         "the oracle had that many steps earlier (or the documented interpolation of its two neighbours), dump order "
+         "and clear semantics are checked, and the functional trace forms are checked on the same kind of histories.",
+    technique="runtime monitoring: closed-form reference model over the recorded event list against the real reducers and trace functions",
+)
